@@ -280,6 +280,26 @@ fn pair(rng: &mut Rng, class: &str) -> (D, D) {
         }
       }
     }
+    // a tie and a little more (or less): the digits dropped are 5 0…0 d, 4 9…9 or exactly 5 0…0, for every number
+    // of dropped digits — a + b with b far below a, so that the exact sum has 34 + m digits
+    "sticky" => {
+      let m = 1 + rng.below(33) as usize;
+      let neg = rng.chance(1, 2);
+      let e = rng.range(-3000, 3000) as i32;
+      let mut a = digits(rng, 34);
+      if rng.chance(1, 2) {
+        // even / odd last kept digit on purpose
+        let last = (a.pop().unwrap() as u8 - b'0') & !1 | (rng.below(2) as u8);
+        a.push(char::from(b'0' + last));
+      }
+      let dropped = match rng.below(4) {
+        0 => format!("5{}", "0".repeat(m - 1)),
+        1 => format!("5{}{}", "0".repeat(m.saturating_sub(2)), if m > 1 { "1" } else { "" }),
+        2 => format!("4{}", "9".repeat(m - 1)),
+        _ => format!("5{}{}", "0".repeat(m.saturating_sub(2)), if m > 1 { (1 + rng.below(9)).to_string() } else { String::new() }),
+      };
+      (D::new(neg, &a, e), D::new(if rng.chance(3, 4) { neg } else { !neg }, &dropped, e - dropped.len() as i32))
+    }
     // operands 34+ orders of magnitude apart
     "far" => {
       let a = D::new(rng.chance(1, 2), &rdigits(rng, 34), rng.range(-3000, 3000) as i32);
@@ -370,7 +390,7 @@ fn pair(rng: &mut Rng, class: &str) -> (D, D) {
   }
 }
 
-const CLASSES: [&str; 9] = ["tie", "far", "cancel", "zero", "subnormal", "edge", "small", "digits", "digits34"];
+const CLASSES: [&str; 10] = ["tie", "sticky", "far", "cancel", "zero", "subnormal", "edge", "small", "digits", "digits34"];
 const BINARY: [&str; 6] = ["add", "sub", "mul", "div", "remainder", "modulo"];
 /// operations whose specification verdict is about the FeelNumber method, not the dec.rs wrapper
 const FN_SPEC_OPS: [&str; 3] = ["even", "odd", "isint"];
@@ -586,7 +606,7 @@ pub fn run(cfg: &Cfg) -> Report {
     for op in UNARY {
       for _ in 0..(per_cell / 2).max(1) {
         let (a, b) = pair(&mut rng, class);
-        let x = if rng.chance(1, 2) { a } else { b };
+        let x = if rng.chance(1, 2) { a.clone() } else { b.clone() };
         let k = if op == "rescale" {
           match rng.below(4) {
             0 => rng.range(-6111, 6175) as i32,
@@ -597,6 +617,16 @@ pub fn run(cfg: &Cfg) -> Report {
           .clamp(-6111, 6175)
         } else {
           0
+        };
+        // rounding to k places a value that is a tie and a little more / less at that place
+        let (x, k) = if op == "rescale" && class == "sticky" {
+          let m = b.coeff.len();
+          let kept_len = 1 + rng.below((34 - m.min(33)) as u64) as usize;
+          let kept: String = a.coeff.chars().rev().take(kept_len).collect::<String>().chars().rev().collect();
+          let k = rng.range(-3, 6) as i32;
+          (D::new(a.neg, &format!("{}{}", kept, b.coeff), -(k + m as i32)), k)
+        } else {
+          (x, k)
         };
         // perfect squares for sqrt now and then
         let x = if op == "sqrt" && rng.chance(1, 4) {
